@@ -49,6 +49,7 @@ def bad_py(tok, rnd):
 def gen_case(seed, idx, profile):
     """profile: 'alloc' (C02), 'tree' (C03), 'names' (C18)"""
     rnd = lib.rng_for(seed, idx, {"alloc": 11, "tree": 22, "names": 33}[profile])
+    rnd2 = lib.rng_for(seed, idx, {"alloc": 12, "tree": 23, "names": 34}[profile])   # later additions draw from their own stream
     ops = []
     nmaps = [0]
     nres = [0]
@@ -68,9 +69,20 @@ def gen_case(seed, idx, profile):
             return ("n%d" % ucount[0],) if rnd.random() < 0.7 else ("n%d" % ucount[0], rnd.randrange(3))
         return gen_name(rnd)
 
+    shared = []          # (child handle, sparse) of maps already used as a window once
+
     def populate(h, aw, dw, al, depth):
         nops = rnd.randint(2, 9 if profile != "alloc" else 14)
         for _ in range(nops):
+            if profile == "names" and shared and rnd2.random() < 0.12:
+                # one (frozen) map may be the window of several parents, anonymously too: the names it
+                # brings along are the same everywhere, and nothing flows back into it
+                fits = [(c, sp) for c, sp, caw_, pdw in shared if caw_ <= aw - 4 and pdw == dw]
+                if fits:
+                    c, sp = rnd2.choice(fits)
+                    ops.append(("win", h, c, None if rnd2.random() < 0.6 else name(), None, sp))
+            if rnd2.random() < 0.12:
+                ops.append(("touch", h))         # pure queries in the middle of a history must change nothing
             kinds = ["res"] * 5 + ["align"]
             if depth > 0:
                 kinds += ["win"] * (4 if profile == "tree" else 2)
@@ -138,8 +150,15 @@ def gen_case(seed, idx, profile):
                     # again: the refused call must not have reserved anything
                     ops.append(("win", h, ch, wname, (1 << aw) - (1 << max(0, caw - 1)), sparse))
                 ops.append(("win", h, ch, wname, waddr, sparse))
+                shared.append((ch, sparse, caw, dw))
                 if rnd.random() < 0.1:
                     ops.append(("win", h, ch, name(), None, sparse))   # add the same window again
+                if profile != "names" and rnd2.random() < 0.3:
+                    # a map used as a window is frozen: adding to it afterwards must be refused
+                    rid = nres[0]
+                    nres[0] += 1
+                    ucount[0] += 1
+                    ops.append(("res", ch, rid, ("late%d" % ucount[0],), 1, None, None))
 
     if big:
         aw = rnd.choice([16, 32, 64])
@@ -305,6 +324,14 @@ def run_impl(case):
                         elif related(nm, v) and len(nm) < len(v): stats["conf_prefix"] += 1
                         elif related(nm, v): stats["conf_ext"] += 1
             probe(h)
+        elif kind == "touch":
+            m = maps[op[1]]
+            for q in (m.all_resources, m.resources, m.windows, m.window_patterns):
+                try:
+                    list(q())
+                except AssertionError:
+                    pass                 # the dense-window asserts of all_resources(); reported by C03's own queries
+            stats["ops"] -= 1
         elif kind == "win":
             _, h, ch, wname, waddr, sparse = op
             m, c = maps[h], maps[ch]
